@@ -38,7 +38,7 @@ type GParetoDistribution struct {
 /* -------------------------------------------------------------------------- */
 
 func NewGParetoDistribution(mu, sigma, xi Scalar) (*GParetoDistribution, error) {
-  if sigma.GetFloat64() <= 0.0 {
+  if !(sigma.GetFloat64() > 0.0) {
     return nil, fmt.Errorf("invalid value for parameter sigma: %f", sigma.GetFloat64())
   }
   // cx1 = -1/xi
